@@ -1,7 +1,9 @@
 #!/venv/bin/python
-"""For every confirmed seeded change under /verif/seeded/<ID>-<ab>/: apply it to /repo, run the quick
-check of its property (and of the related properties given on the command line), undo it, and record
-the outcome in meta.json.  Usage: tools/seed_matrix.py [SEED_DIR ...] [--also C02,C20]"""
+"""For every confirmed seeded change under /verif/seeded/<ID>-<ab>/: apply it to a working tree of funsor, run the
+quick check of its property (and of the related properties given on the command line), undo it, and record
+the outcome in meta.json.  By default the tree is /repo itself (apply, check, `git checkout -- .`); with
+SEED_MATRIX_WORKTREE=<dir> a scratch worktree of /repo HEAD is created there, used through VERIF_REPO and removed.
+Usage: tools/seed_matrix.py [SEED_DIR ...] [--also C02,C20]"""
 import json
 import os
 import re
@@ -9,6 +11,8 @@ import subprocess
 import sys
 
 ROOT = "/verif"
+TREE = os.environ.get("SEED_MATRIX_WORKTREE") or "/repo"
+ENV = "" if TREE == "/repo" else f"VERIF_REPO={TREE} "
 also = []
 args = [a for a in sys.argv[1:]]
 if "--also" in args:
@@ -22,6 +26,13 @@ def sh(cmd, **kw):
     return subprocess.run(cmd, shell=True, capture_output=True, text=True, **kw)
 
 
+if TREE != "/repo":
+    sh(f"git -C /repo worktree remove --force {TREE}")
+    if sh(f"git -C /repo worktree add --detach {TREE} HEAD").returncode != 0:
+        print("cannot create worktree", TREE)
+        sys.exit(2)
+
+
 for d in dirs:
     d = os.path.abspath(d.rstrip("/"))
     name = os.path.basename(d)
@@ -29,20 +40,20 @@ for d in dirs:
     patch = os.path.join(d, "patch.diff")
     if not os.path.exists(patch):
         continue
-    if sh("git -C /repo diff --quiet").returncode != 0:
-        print("repo dirty; abort")
+    if sh(f"git -C {TREE} diff --quiet").returncode != 0:
+        print("tree dirty; abort")
         sys.exit(2)
-    if sh(f"git -C /repo apply {patch}").returncode != 0:
+    if sh(f"git -C {TREE} apply {patch}").returncode != 0:
         print(name, "patch does not apply to the current head")
         continue
     results = {}
     try:
         for chk in [pid] + [a for a in also if a != pid]:
-            r = sh(f"cd {ROOT} && ./check {chk} --tier quick")
+            r = sh(f"cd {ROOT} && {ENV}./check {chk} --tier quick")
             lines = [l for l in r.stdout.splitlines() if l.startswith("VIOLATION") or l.startswith("  ")]
             results[chk] = dict(exit=r.returncode, violations=sum(1 for l in r.stdout.splitlines() if l.startswith("VIOLATION")), first=(lines[1].strip()[:300] if len(lines) > 1 else ""))
     finally:
-        sh("git -C /repo checkout -- .")
+        sh(f"git -C {TREE} checkout -- .")
     confirm = {}
     cp = os.path.join(d, "confirm.json")
     if os.path.exists(cp):
@@ -68,3 +79,6 @@ for d in dirs:
     )
     json.dump(meta, open(meta_path, "w"), indent=1)
     print(name, {k: v["exit"] for k, v in results.items()})
+
+if TREE != "/repo":
+    sh(f"git -C /repo worktree remove --force {TREE}")
